@@ -222,6 +222,73 @@ func copyCoverage(w *World, fn *ssa.Function, T *types.Named, depth int, handled
 	}
 }
 
+type sharedElem struct {
+	container, how string
+	pos            token.Pos
+}
+
+// sharedElements finds, in a copy function, reference-typed elements that
+// are transferred from one container into another without a call in between
+// (dst[i] = src[i], dst[k] = v in a range over a map, copy(dst, src)).
+func sharedElements(fn *ssa.Function) []sharedElem {
+	var out []sharedElem
+	describe := func(v ssa.Value) string {
+		if f, _ := loadedField(stripConv(v)); f != nil {
+			return f.Name()
+		}
+		if fa, ok := v.(*ssa.FieldAddr); ok {
+			return fieldOfAddr(fa).Name()
+		}
+		return types.TypeString(v.Type(), func(p *types.Package) string { return p.Name() })
+	}
+	plainElem := func(v ssa.Value) bool {
+		switch x := stripConv(v).(type) {
+		case *ssa.UnOp:
+			if x.Op == token.MUL {
+				_, isIdx := x.X.(*ssa.IndexAddr)
+				return isIdx
+			}
+		case *ssa.Extract:
+			_, isNext := x.Tuple.(*ssa.Next)
+			return isNext
+		case *ssa.Lookup:
+			return true
+		}
+		return false
+	}
+	for _, b := range fn.Blocks {
+		for _, in := range b.Instrs {
+			switch x := in.(type) {
+			case *ssa.Store:
+				if ia, ok := x.Addr.(*ssa.IndexAddr); ok && isRefType(x.Val.Type()) && plainElem(x.Val) {
+					out = append(out, sharedElem{describe(ia.X), "each element is assigned from the element of another container", x.Pos()})
+				}
+			case *ssa.MapUpdate:
+				if isRefType(x.Value.Type()) && plainElem(x.Value) {
+					out = append(out, sharedElem{describe(x.Map), "each value is assigned from the value of another map", x.Pos()})
+				}
+			case *ssa.Call:
+				if bi, ok := x.Call.Value.(*ssa.Builtin); ok && bi.Name() == "copy" && len(x.Call.Args) == 2 {
+					if sl, ok := x.Call.Args[0].Type().Underlying().(*types.Slice); ok && isRefType(sl.Elem()) {
+						out = append(out, sharedElem{describe(x.Call.Args[0]), "it is filled with the built-in copy", x.Pos()})
+					}
+				}
+				if bi, ok := x.Call.Value.(*ssa.Builtin); ok && bi.Name() == "append" && len(x.Call.Args) == 2 {
+					// append(fresh, src...) with reference-typed elements
+					if sl, ok := x.Call.Args[0].Type().Underlying().(*types.Slice); ok && isRefType(sl.Elem()) {
+						if _, isSlice := x.Call.Args[1].Type().Underlying().(*types.Slice); isSlice {
+							if _, fromLit := x.Call.Args[1].(*ssa.Slice); !fromLit {
+								out = append(out, sharedElem{describe(x.Call.Args[0]), "it is filled by appending another slice whole", x.Pos()})
+							}
+						}
+					}
+				}
+			}
+		}
+	}
+	return out
+}
+
 // sourceDerivedCall: the call is a method on the source object (v.PartialCopy()).
 func sourceDerivedCall(fn *ssa.Function, ci ssa.CallInstruction) bool {
 	r := callRecv(ci)
@@ -319,6 +386,27 @@ func runC10(c *Ctx) {
 			c.Fail(fname(fn)+"#"+m.field+"-copied-from-"+m.from, m.pos, "field "+sp.typ+"."+m.field+" of the copy is computed from the source's "+m.from+" and not from its "+m.field+": the copy is not equal to the original")
 		}
 		c.Pass(fname(fn)+"#fields-copied-from-same-field", fn.Pos(), "every directly assigned field that reads the source reads the same field")
+	}
+	// the elements put into a copied container are copies too
+	elemOK := map[string]string{
+		"(core/state.StateDB).Copy#elements-of-preimages": "SHA3 preimage bytes are recorded once (AddPreimage copies them) and never edited",
+	}
+	nElem := 0
+	for _, sp := range specs {
+		fn := w.Fn(sp.pkg, sp.recv, sp.fn)
+		for _, fn2 := range withClosures(fn) {
+			for _, se := range sharedElements(fn2) {
+				nElem++
+				c.sites++
+				key := fname(fn) + "#elements-of-" + se.container
+				if r, ok := elemOK[key]; ok {
+					c.Pass(key, se.pos, "elements shared, tabled: "+r)
+					continue
+				}
+				c.Fail(key, se.pos, "the copy gets a container of its own for "+se.container+" but "+se.how+": the reference-typed elements are shared with the source, and an in-place edit of one (a penalty on a delegation entry, an append to a record's hash list) shows in both states")
+			}
+		}
+		c.Pass(fname(fn)+"#container-elements-copied", fn.Pos(), "no reference-typed element is moved from a source container into the copy's container without being copied")
 	}
 	// balances are never mutated in place (the Account struct is copied by value)
 	c10NoInPlaceBalance(c, w)
